@@ -52,6 +52,15 @@ Theorem C10_matrix_step_spec : forall m,
   /\ (m_errors m = None -> matrix_data m = Some (m_travel m, m_dist m)).
 Proof. exact matrix_step_spec_l. Qed.
 
+(* the step in front of validation when no routing matrix is supplied (map_to_problem_with_approx): with an index location nothing
+   is approximated, so it cannot panic (the document then gets E1503, and E1502 when coordinates are present too); with coordinates
+   only it needs a profile and positive speeds (known classes K10 / X14); `approx_panics` of `read` is this step on reduced documents *)
+Theorem C10_prevalidation_guard :
+  (forall profiles speeds, pre_validation_panics true profiles speeds = false)
+  /\ (forall profiles speeds, profiles <> [] -> (forall s, In s speeds -> 0 < s) -> pre_validation_panics false profiles speeds = false)
+  /\ (forall d, approx_panics d = pre_validation_panics false (d_profiles d) []).
+Proof. exact prevalidation_l. Qed.
+
 (* rule tables: every implemented rule is documented and vice versa, no rule is called twice, every defined rule is called,
    every rule function reports its own code *)
 Theorem C10_rule_table_complete :
